@@ -395,6 +395,13 @@ func consDefs() []*consDef {
 			result: func(in stream, k int, v int64) refResult {
 				return refResult{val: fmt.Sprint(firstHit(in, v) >= 0)}
 			}, readAhead: 1},
+		// the list-in-list form of ~ is a different code path (containsAllItems): it must stop at the
+		// element that matches the last missing needle
+		{name: "[v]~list", usesV: true, tmpl: func(r string) string { return "([v]~" + r + ")" },
+			need: searchNeed,
+			result: func(in stream, k int, v int64) refResult {
+				return refResult{val: fmt.Sprint(firstHit(in, v) >= 0)}
+			}, readAhead: 1},
 		// the copy loop of multiUse is a stage of its own: it may read one element ahead of its consumers
 		{name: "multiUse{first,top(k).size}", usesK: true, exhaustsTop: true, multiUse: true,
 			tmpl: func(r string) string { return r + ".multiUse({a:l->l.first(),b:l->l.top(k).size()})" },
